@@ -196,7 +196,7 @@ class Exec:
             start = len(ent[1])
         else:
             s = z3.Solver()
-            s.set('timeout', timeout)
+            set_budget(s, timeout)
             start = 0
         for c in st.pc[start:]:
             if is_cheap(c):
